@@ -501,7 +501,7 @@ def gen_override(r, groups):
                 junit_dotted=r.random() < 0.4)
 
 
-def gen_profile(r, groups, f8_bias):
+def gen_profile(r, groups, f8_bias, name=None):
     st = {}
     p = r.choice([0.2, 0.4, 0.7])
     for k in PROFILE_KEYS:
@@ -510,6 +510,11 @@ def gen_profile(r, groups, f8_bias):
             if f8_bias and k in TABLE_VALUED and not isinstance(v, dict) and r.random() < 0.6:
                 v = gen_value(r, k, groups)
             st[k] = v
+    # the default profile of every file is layered over the built-in `slow-timeout = { period = "60s" }`,
+    # so a table without `period` loads there (an instance of the F8 class)
+    sl = st.get("slow-timeout")
+    if name == "default" and isinstance(sl, dict) and len(sl) > 1 and r.random() < 0.2:
+        st["slow-timeout"] = {k: v for k, v in sl.items() if k != "period"}
     if r.random() < p:
         j = {}
         if r.random() < 0.6:
@@ -563,7 +568,7 @@ def gen_file(r, pool, known_groups, tool, defines, f8_bias):
     if "default" not in names and r.random() < 0.6:
         names[0] = "default"
     r.shuffle(names)
-    return dict(tool=tool, profiles={n: gen_profile(r, known_groups, f8_bias) for n in names},
+    return dict(tool=tool, profiles={n: gen_profile(r, known_groups, f8_bias, n) for n in names},
                 groups=defines)
 
 
